@@ -1,16 +1,33 @@
 (** C04 — Zone-aware date-times: one instant, many wall clocks.
-    Property theorems only: each is closed by [exact] of a lemma from Proofs/C04.v and followed by
-    [Print Assumptions].  A date-time is the record [dtz] = (UTC NaiveDateTime [dz_utc], offset seconds
-    [dz_off]) of Model/DateTime.v; model functions are the line-by-line transcription of
-    src/datetime/mod.rs, src/offset/mod.rs, src/offset/fixed.rs, src/naive/datetime/mod.rs with trapping
-    integer arithmetic ([Val]/[Panic]). *)
+    Property theorems only: each is closed by [exact] of a lemma from Proofs/C04.v / Proofs/C04Date.v
+    and followed by [Print Assumptions].
+
+    Reading.  A date-time is the record [dtz] = (UTC NaiveDateTime [dz_utc], offset seconds [dz_off])
+    of Model/DateTime.v; the model functions are the line-by-line transcription of
+    src/datetime/mod.rs, src/offset/mod.rs, src/offset/fixed.rs, src/naive/datetime/mod.rs with
+    trapping integer arithmetic ([Val]/[Panic]).  Semantics (Proofs/C04.v):
+      [dn d]      day number (Spec/Gregorian.v) of a date word,   [nominal d]  a supported date,
+      [usecs u]   = dn * 86400 + seconds of day of a naive reading, [frac u] its sub-second field
+                  (>= 10^9 encodes a leap second and is carried unchanged),
+      [wall a]    = usecs (dz_utc a) + dz_off a   (the wall clock, as a second count),
+      [in_rng t]  DN_MIN*86400 <= t <= DN_MAX*86400 + 86399   (the supported instants),
+      [keep t f]  = in_rng t, minus the one reading chrono's filter also refuses: a leap fraction in
+                  the very last second of the range (NaiveDateTime::MAX is 23:59:59.999999999),
+      [ndt_ok], [dtz_ok]  well-formed values: nominal date, seconds < 86400, fraction < 2*10^9,
+                  offset strictly between -86400 and 86400.
+    The calendar-core facts these proofs need about Model/Date.v ([date_facts]: successor /
+    predecessor = day number +- 1, order embedding, accessors) are discharged in Proofs/C04Date.v
+    from the shared library Proofs/Date.v (C01/C08), so the theorems below are unconditional, with
+    one exception: the ISO-week accessor, whose calendar lemma does not exist yet (its theorem is
+    named _modulo_isoweek and carries that lemma as an explicit premise). *)
 From Coq Require Import ZArith List Bool.
 From V Require Import Base.Int Base.IO Spec.Gregorian.
 From V Require Model.Date Model.Time.
-From V Require Import Model.DateTime Model.C04 Proofs.C04.
+From V Require Import Model.DateTime Model.C04 Proofs.C04 Proofs.C04Date.
+Import ListNotations.
 Open Scope Z_scope.
 
-(* offsets: exactly the whole seconds strictly between -24h and +24h; west = negated east *)
+(* ---- offsets: exactly the whole seconds strictly between -24h and +24h; west = negated east *)
 Theorem C04_east_opt : forall s off, east_opt s = Some off <-> (off = s /\ off_ok s).
 Proof. exact east_opt_some_iff. Qed.
 Print Assumptions C04_east_opt.
@@ -19,7 +36,7 @@ Theorem C04_west_opt : forall s, in_i32 s = true ->
 Proof. exact west_opt_spec. Qed.
 Print Assumptions C04_west_opt.
 
-(* time of day under an offset: (secs + off) mod 86400 with a day carry in {-1,0,1}; fraction kept *)
+(* ---- time of day under an offset: (secs + off) mod 86400 with a day carry in {-1,0,1}; fraction kept *)
 Theorem C04_time_add_offset : forall t off, time_ok t -> off_ok off ->
   Time.overflowing_add_offset t off =
     Val (Time.mk_time ((Time.tsecs t + off) mod 86400) (Time.tfrac t), (Time.tsecs t + off) / 86400).
@@ -36,13 +53,65 @@ Theorem C04_time_wallclock : forall a, time_ok (nd_time (dz_utc a)) -> off_ok (d
 Proof. exact dz_time_spec. Qed.
 Print Assumptions C04_time_wallclock.
 
-(* building from UTC and reading UTC back is the identity (and never fails) *)
+(* ---- building from UTC and reading UTC back is the identity (and never fails); its wall clock is UTC + offset *)
 Theorem C04_utc_roundtrip : forall off u,
   naive_utc (from_utc_datetime off u) = u /\ dz_off (from_utc_datetime off u) = off.
 Proof. exact utc_roundtrip. Qed.
 Print Assumptions C04_utc_roundtrip.
+Theorem C04_from_utc_wall : forall off u, ndt_ok u -> off_ok off ->
+  dtz_ok (from_utc_datetime off u) /\ wall (from_utc_datetime off u) = usecs u + off.
+Proof. exact from_utc_then_local. Qed.
+Print Assumptions C04_from_utc_wall.
 
-(* equality, ordering and the hash key depend on the UTC reading only, and agree with each other *)
+(* ---- building from a wall clock: Single with instant = wall clock - offset exactly when that instant is
+        in the supported range, None otherwise (never Ambiguous, never a panic) *)
+Theorem C04_from_local_fails_iff : forall off l, ndt_ok l -> off_ok off ->
+  if in_rng (usecs l - off)
+  then exists z, from_local_datetime off l = Val (MSingle z) /\ dtz_ok z /\ dz_off z = off /\
+                 usecs (dz_utc z) = usecs l - off /\ frac (dz_utc z) = frac l
+  else from_local_datetime off l = Val MNone.
+Proof. exact from_local_fails_iff. Qed.
+Print Assumptions C04_from_local_fails_iff.
+(* ... and reading the wall clock back is the identity *)
+Theorem C04_local_roundtrip : forall off l z, ndt_ok l -> off_ok off ->
+  from_local_datetime off l = Val (MSingle z) -> naive_local z = Val l /\ overflowing_naive_local z = Val l.
+Proof. exact local_roundtrip_u. Qed.
+Print Assumptions C04_local_roundtrip.
+(* UTC -> wall clock -> UTC, also when the wall clock is a headroom reading *)
+Theorem C04_utc_local_utc : forall a l, dtz_ok a -> overflowing_naive_local a = Val l ->
+  from_local_datetime (dz_off a) l = Val (MSingle a).
+Proof. exact utc_local_utc_u. Qed.
+Print Assumptions C04_utc_local_utc.
+
+(* ---- reading the wall clock: naive_local panics exactly when the wall clock leaves the nominal range ... *)
+Theorem C04_naive_local_panics_iff : forall a, dtz_ok a ->
+  if in_rng (wall a)
+  then exists l, naive_local a = Val l /\ ndt_ok l /\ usecs l = wall a /\ frac l = frac (dz_utc a)
+  else naive_local a = Panic.
+Proof. exact naive_local_panics_iff. Qed.
+Print Assumptions C04_naive_local_panics_iff.
+(* ... while overflowing_naive_local always returns the right reading (nominal date or one of the two headroom dates) *)
+Theorem C04_overflowing_naive_local : forall a, dtz_ok a ->
+  exists l, overflowing_naive_local a = Val l /\ ndt_wide l /\ usecs l = wall a /\ frac l = frac (dz_utc a).
+Proof. exact overflowing_naive_local_u. Qed.
+Print Assumptions C04_overflowing_naive_local.
+(* the headroom dates: their literal year flags are those of the years MIN_YEAR-1 / MAX_YEAR+1, they are
+   31 Dec / 1 Jan of those years, one day outside the range, and all accessors read them correctly (computed) *)
+Theorem C04_headroom_flags :
+  Date.yf_from_year (MIN_YEAR - 1) = Val (Date.d_year_flags Date.D_BEFORE_MIN) /\
+  Date.yf_from_year (MAX_YEAR + 1) = Val (Date.d_year_flags Date.D_AFTER_MAX) /\
+  Date.d_year Date.D_BEFORE_MIN = MIN_YEAR - 1 /\ Date.d_ordinal Date.D_BEFORE_MIN = days_in_year (MIN_YEAR - 1) /\
+  Date.d_year Date.D_AFTER_MAX = MAX_YEAR + 1 /\ Date.d_ordinal Date.D_AFTER_MAX = 1.
+Proof. exact headroom_flags. Qed.
+Print Assumptions C04_headroom_flags.
+Theorem C04_headroom_dates :
+  dn Date.D_BEFORE_MIN = DN_MIN - 1 /\ dn Date.D_AFTER_MAX = DN_MAX + 1 /\
+  fields_ok Date.D_BEFORE_MIN /\ fields_ok Date.D_AFTER_MAX /\ iso_ok Date.D_BEFORE_MIN /\ iso_ok Date.D_AFTER_MAX.
+Proof. exact (conj dn_BEFORE_MIN (conj dn_AFTER_MAX (conj fields_BEFORE_MIN (conj fields_AFTER_MAX (conj iso_BEFORE_MIN iso_AFTER_MAX))))). Qed.
+Print Assumptions C04_headroom_dates.
+
+(* ---- equality, ordering and the hash key depend on the UTC reading only, agree with each other, and are the
+        equality / order of the instants (second count, then fraction); offsets are ignored *)
 Theorem C04_eq_ord_hash_utc_only : forall a b a' b', dz_utc a = dz_utc a' -> dz_utc b = dz_utc b' ->
   dz_eqb a b = dz_eqb a' b' /\ dz_cmp a b = dz_cmp a' b' /\ dz_hash_key a = dz_hash_key a'.
 Proof. exact eq_ord_hash_utc_only. Qed.
@@ -52,8 +121,13 @@ Theorem C04_eq_ord_hash_agree : forall a b,
   (dz_eqb a b = keys_eqb (dz_hash_key a) (dz_hash_key b)).
 Proof. exact eq_ord_hash_agree. Qed.
 Print Assumptions C04_eq_ord_hash_agree.
+Theorem C04_eq_ord_instant : forall a b, dtz_ok a -> dtz_ok b ->
+  dz_cmp a b = cmp_lex [usecs (dz_utc a); frac (dz_utc a)] [usecs (dz_utc b); frac (dz_utc b)] /\
+  (dz_eqb a b = true <-> usecs (dz_utc a) = usecs (dz_utc b) /\ frac (dz_utc a) = frac (dz_utc b)).
+Proof. exact eq_ord_instant. Qed.
+Print Assumptions C04_eq_ord_instant.
 
-(* converting to another zone keeps the UTC reading: equal, compares equal, same hash key *)
+(* ---- converting to another zone keeps the instant: equal, compares equal, same hash key *)
 Theorem C04_with_timezone_instant : forall a off,
   dz_eqb (with_timezone a off) a = true /\ dz_cmp (with_timezone a off) a = 0 /\
   dz_hash_key (with_timezone a off) = dz_hash_key a.
@@ -65,3 +139,214 @@ Print Assumptions C04_fixed_offset_id.
 Theorem C04_to_utc : forall a, dz_utc (dz_to_utc a) = dz_utc a /\ dz_off (dz_to_utc a) = 0.
 Proof. exact to_utc_spec. Qed.
 Print Assumptions C04_to_utc.
+
+(* ---- every accessor returns the field of the wall clock W = UTC + offset, also in the one-day headroom *)
+Theorem C04_accessors_wallclock : forall a, dtz_ok a ->
+  let w := wall a in let n := w / 86400 in let sod := w mod 86400 in
+  let '(y, m, d) := ymd_of_dn n in
+  dz_year a = Val y /\ dz_month a = Val m /\ dz_month0 a = Val (m - 1) /\
+  dz_day a = Val d /\ dz_day0 a = Val (d - 1) /\
+  dz_ordinal a = Val (ordinal_of_dn n) /\ dz_ordinal0 a = Val (ordinal_of_dn n - 1) /\
+  dz_weekday a = Val (weekday_of_dn n) /\
+  dz_hour a = Val (sod / 3600) /\ dz_minute a = Val (sod / 60 mod 60) /\ dz_second a = Val (sod mod 60) /\
+  dz_nanosecond a = Val (frac (dz_utc a)).
+Proof. exact accessors_wallclock_u. Qed.
+Print Assumptions C04_accessors_wallclock.
+(* ISO week: conditional on the (not yet available) calendar lemma for nominal dates; headroom dates computed *)
+Theorem C04_iso_week_wallclock_modulo_isoweek : forall a, (forall d, nominal d -> iso_ok d) -> dtz_ok a ->
+  exists w, dz_iso_week a = Val w /\ (Date.iw_year w, Date.iw_week w) = iso_of_dn (wall a / 86400).
+Proof. exact iso_week_wallclock_u. Qed.
+Print Assumptions C04_iso_week_wallclock_modulo_isoweek.
+
+(* ---- field replacement: the common layer (map_local): the new wall clock l' produced by the NaiveDateTime
+        setter is re-resolved in the zone; None iff the setter fails or the instant l' - offset is refused *)
+Theorem C04_map_local : forall a f l l', dtz_ok a -> overflowing_naive_local a = Val l ->
+  f l = Val (Some l') -> ndt_wide l' ->
+  if keep (usecs l' - dz_off a) (frac l')
+  then exists z, map_local a f = Val (Some z) /\ dtz_ok z /\ dz_off z = dz_off a /\
+                 usecs (dz_utc z) = usecs l' - dz_off a /\ frac (dz_utc z) = frac l'
+  else map_local a f = Val None.
+Proof. exact map_local_some_u. Qed.
+Print Assumptions C04_map_local.
+Theorem C04_map_local_none : forall a f l, overflowing_naive_local a = Val l -> f l = Val None ->
+  map_local a f = Val None.
+Proof. exact map_local_none. Qed.
+Print Assumptions C04_map_local_none.
+
+(* with_time (as repaired by 6a10a33): the wall-clock date is kept (also a headroom date), the time replaced *)
+Theorem C04_with_time : forall a t, dtz_ok a -> time_ok t ->
+  let w' := wall a / 86400 * 86400 + Time.tsecs t in
+  if keep (w' - dz_off a) (Time.tfrac t)
+  then exists z, dz_with_time a t = Val (MSingle z) /\ dtz_ok z /\ dz_off z = dz_off a /\
+                 wall z = w' /\ frac (dz_utc z) = Time.tfrac t
+  else dz_with_time a t = Val MNone.
+Proof. exact with_time_u. Qed.
+Print Assumptions C04_with_time.
+(* the unrepaired with_time built values outside the range at both ends; the repaired one refuses them *)
+Theorem C04_with_time_unfiltered_refuted :
+  (exists z, with_time_unfiltered z_max_p2h noon = Val (MSingle z) /\ in_utc_range z = false /\ dz_cmp z (mk_dtz NDT_MAX 0) = 1) /\
+  (exists z, with_time_unfiltered z_min_m2h noon = Val (MSingle z) /\ in_utc_range z = false /\ dz_cmp z (mk_dtz NDT_MIN 0) = -1).
+Proof. exact with_time_unfiltered_escapes. Qed.
+Print Assumptions C04_with_time_unfiltered_refuted.
+Example C04_with_time_repaired_examples :
+  dz_with_time z_max_p2h noon = Val MNone /\ dz_with_time z_min_m2h noon = Val MNone /\
+  naive_local z_max_p2h = Panic /\ naive_local z_min_m2h = Panic.
+Proof. exact with_time_repaired_refuses. Qed.
+Print Assumptions C04_with_time_repaired_examples.
+Example C04_hypotheses_inhabited :
+  (dtz_ok z_max_p2h /\ in_rng (wall z_max_p2h) = false) /\ (dtz_ok z_min_m2h /\ in_rng (wall z_min_m2h) = false).
+Proof. exact (conj z_max_ok z_min_ok). Qed.
+Print Assumptions C04_hypotheses_inhabited.
+
+(* hour (7) / minute (8) / second (9) / nanosecond (10): exactly that field of the wall clock is replaced
+   (wall clock possibly in the headroom); None iff the field value is out of its range or the instant is refused *)
+Theorem C04_replace_time_field : forall field a x, dtz_ok a -> 7 <= field <= 10 -> in_u32 x = true ->
+  match new_time field (wall a mod 86400) (frac (dz_utc a)) x with
+  | None => dz_with field a x = Val None
+  | Some (s', f') =>
+      let w' := wall a / 86400 * 86400 + s' in
+      if keep (w' - dz_off a) f'
+      then exists z, dz_with field a x = Val (Some z) /\ dtz_ok z /\ dz_off z = dz_off a /\
+                     wall z = w' /\ frac (dz_utc z) = f'
+      else dz_with field a x = Val None
+  end.
+Proof. exact with_timefield_u. Qed.
+Print Assumptions C04_replace_time_field.
+
+(* year (0) / month (1) / month0 (2) / day (3) / day0 (4) / ordinal (5) / ordinal0 (6): exactly that field of
+   the wall-clock date is replaced, time of day kept; None iff no such date exists in the supported years or
+   the instant is refused.  PARTIAL: stated for a nominal wall clock ([in_rng (wall a)]); for a headroom wall
+   clock only the layer theorem C04_replace_date_field_glue and the identity C04_with_year_same are proved
+   (the NaiveDate setters on the two headroom words are covered by the correspondence run only). *)
+Theorem C04_replace_date_field_partial : forall field a x, dtz_ok a -> in_rng (wall a) = true -> 0 <= field <= 6 ->
+  (if field =? 0 then in_i32 x else in_u32 x) = true ->
+  match new_dn field (wall a / 86400) x with
+  | None => dz_with field a x = Val None
+  | Some n' =>
+      let w' := n' * 86400 + wall a mod 86400 in
+      if keep (w' - dz_off a) (frac (dz_utc a))
+      then exists z, dz_with field a x = Val (Some z) /\ dtz_ok z /\ dz_off z = dz_off a /\
+                     wall z = w' /\ frac (dz_utc z) = frac (dz_utc a)
+      else dz_with field a x = Val None
+  end.
+Proof. exact with_datefield_spec. Qed.
+Print Assumptions C04_replace_date_field_partial.
+Theorem C04_replace_date_field_glue : forall field a x l, dtz_ok a -> 1 <= field <= 6 ->
+  overflowing_naive_local a = Val l ->
+  match ndt_with field l x with
+  | Val None => dz_with field a x = Val None
+  | Val (Some l') =>
+      ndt_wide l' ->
+      if keep (usecs l' - dz_off a) (frac l')
+      then exists z, dz_with field a x = Val (Some z) /\ dtz_ok z /\ dz_off z = dz_off a /\
+                     wall z = usecs l' /\ frac (dz_utc z) = frac l'
+      else dz_with field a x = Val None
+  | _ => True
+  end.
+Proof. exact with_datefield_glue_u. Qed.
+Print Assumptions C04_replace_date_field_glue.
+Theorem C04_with_year_same : forall a l, dtz_ok a -> overflowing_naive_local a = Val l ->
+  negb (leap_at_max (usecs (dz_utc a)) (frac (dz_utc a))) = true ->
+  dz_with 0 a (Date.d_year (nd_date l)) = Val (Some a).
+Proof. exact with_year_same_u. Qed.
+Print Assumptions C04_with_year_same.
+
+(* ---- day stepping: the wall-clock date moves by n days, time of day kept.  PARTIAL in the same sense
+        (nominal wall clock); the layer theorems hold for any wall clock *)
+Theorem C04_add_days_partial : forall a n, dtz_ok a -> in_rng (wall a) = true -> in_u64 n = true -> n <> 0 ->
+  let n' := wall a / 86400 + n in
+  let w' := n' * 86400 + wall a mod 86400 in
+  if dn_in_range n' && keep (w' - dz_off a) (frac (dz_utc a))
+  then exists z, dz_checked_add_days a n = Val (Some z) /\ dtz_ok z /\ dz_off z = dz_off a /\
+                 wall z = w' /\ frac (dz_utc z) = frac (dz_utc a)
+  else dz_checked_add_days a n = Val None.
+Proof. exact add_days_spec. Qed.
+Print Assumptions C04_add_days_partial.
+Theorem C04_add_days_zero : forall a, dz_checked_add_days a 0 = Val (Some a).
+Proof. exact add_days_zero. Qed.
+Print Assumptions C04_add_days_zero.
+Theorem C04_sub_days_partial : forall a n, dtz_ok a -> in_rng (wall a) = true -> in_u64 n = true ->
+  let n' := wall a / 86400 - n in
+  let w' := n' * 86400 + wall a mod 86400 in
+  if dn_in_range n' && in_rng (w' - dz_off a)
+  then exists z, dz_checked_sub_days a n = Val (Some z) /\ dtz_ok z /\ dz_off z = dz_off a /\
+                 wall z = w' /\ frac (dz_utc z) = frac (dz_utc a)
+  else dz_checked_sub_days a n = Val None.
+Proof. exact sub_days_spec. Qed.
+Print Assumptions C04_sub_days_partial.
+Theorem C04_add_days_glue : forall a n l d', dtz_ok a -> n <> 0 -> overflowing_naive_local a = Val l ->
+  Date.checked_add_days (nd_date l) n = Val (Some d') -> dateok d' -> dn (nd_date l) <= dn d' ->
+  let w' := dn d' * 86400 + wall a mod 86400 in
+  if keep (w' - dz_off a) (frac (dz_utc a))
+  then exists z, dz_checked_add_days a n = Val (Some z) /\ dtz_ok z /\ dz_off z = dz_off a /\
+                 wall z = w' /\ frac (dz_utc z) = frac (dz_utc a)
+  else dz_checked_add_days a n = Val None.
+Proof. exact add_days_glue_u. Qed.
+Print Assumptions C04_add_days_glue.
+Theorem C04_sub_days_glue : forall a n l d', dtz_ok a -> overflowing_naive_local a = Val l ->
+  Date.checked_sub_days (nd_date l) n = Val (Some d') -> dateok d' -> dn d' <= dn (nd_date l) ->
+  let w' := dn d' * 86400 + wall a mod 86400 in
+  if in_rng (w' - dz_off a)
+  then exists z, dz_checked_sub_days a n = Val (Some z) /\ dtz_ok z /\ dz_off z = dz_off a /\
+                 wall z = w' /\ frac (dz_utc z) = frac (dz_utc a)
+  else dz_checked_sub_days a n = Val None.
+Proof. exact sub_days_glue_u. Qed.
+Print Assumptions C04_sub_days_glue.
+
+(* ---- month stepping ([add] = true: checked_add_months, false: checked_sub_months): calendar month arithmetic
+        on the wall-clock date with the day clamped, time of day kept.  PARTIAL in the same sense.  Month
+        stepping has no range filter of its own; the layer theorem shows why it cannot build an out-of-range
+        value (the sibling question of the with_time finding): the NaiveDate step returns a nominal date or,
+        for zero months, the unchanged date, for which re-resolution gives the value itself back *)
+Theorem C04_months_partial : forall (add : bool) a m, dtz_ok a -> in_rng (wall a) = true -> in_u32 m = true ->
+  let step := if add then dz_checked_add_months a m else dz_checked_sub_months a m in
+  match month_target (wall a / 86400) (if add then m else - m) with
+  | None => step = Val None
+  | Some n' =>
+      let w' := n' * 86400 + wall a mod 86400 in
+      if in_rng (w' - dz_off a)
+      then exists z, step = Val (Some z) /\ dtz_ok z /\ dz_off z = dz_off a /\
+                     wall z = w' /\ frac (dz_utc z) = frac (dz_utc a)
+      else step = Val None
+  end.
+Proof. exact months_spec. Qed.
+Print Assumptions C04_months_partial.
+Theorem C04_add_months_glue : forall a m l d', dtz_ok a -> overflowing_naive_local a = Val l ->
+  Date.checked_add_months (nd_date l) m = Val (Some d') -> nominal d' \/ d' = nd_date l ->
+  let w' := dn d' * 86400 + wall a mod 86400 in
+  if in_rng (w' - dz_off a)
+  then exists z, dz_checked_add_months a m = Val (Some z) /\ dtz_ok z /\ dz_off z = dz_off a /\
+                 wall z = w' /\ frac (dz_utc z) = frac (dz_utc a)
+  else dz_checked_add_months a m = Val None.
+Proof. exact add_months_glue_u. Qed.
+Print Assumptions C04_add_months_glue.
+Theorem C04_sub_months_glue : forall a m l d', dtz_ok a -> overflowing_naive_local a = Val l ->
+  Date.checked_sub_months (nd_date l) m = Val (Some d') -> nominal d' \/ d' = nd_date l ->
+  let w' := dn d' * 86400 + wall a mod 86400 in
+  if in_rng (w' - dz_off a)
+  then exists z, dz_checked_sub_months a m = Val (Some z) /\ dtz_ok z /\ dz_off z = dz_off a /\
+                 wall z = w' /\ frac (dz_utc z) = frac (dz_utc a)
+  else dz_checked_sub_months a m = Val None.
+Proof. exact sub_months_glue_u. Qed.
+Print Assumptions C04_sub_months_glue.
+Theorem C04_months_zero : forall a, dtz_ok a ->
+  dz_checked_add_months a 0 = Val (Some a) /\ dz_checked_sub_months a 0 = Val (Some a).
+Proof. exact months_zero_u. Qed.
+Print Assumptions C04_months_zero.
+
+(* ---- with_ymd_and_hms: the date / time constructors' results (C01 / C07) re-resolved as a wall clock *)
+Theorem C04_with_ymd_and_hms : forall off y m d h mi s dd t, off_ok off ->
+  Date.from_ymd_opt y m d = Val (Some dd) -> nominal dd -> Time.from_hms_opt h mi s = Val (Some t) -> time_ok t ->
+  let w := dn dd * 86400 + Time.tsecs t in
+  if in_rng (w - off)
+  then exists z, with_ymd_and_hms off y m d h mi s = Val (MSingle z) /\ dtz_ok z /\ dz_off z = off /\
+                 wall z = w /\ frac (dz_utc z) = Time.tfrac t
+  else with_ymd_and_hms off y m d h mi s = Val MNone.
+Proof. exact ymdhms_glue_u. Qed.
+Print Assumptions C04_with_ymd_and_hms.
+Theorem C04_with_ymd_and_hms_invalid : forall off y m d h mi s,
+  (Date.from_ymd_opt y m d = Val None \/
+   exists dd, Date.from_ymd_opt y m d = Val (Some dd) /\ Time.from_hms_opt h mi s = Val None) ->
+  with_ymd_and_hms off y m d h mi s = Val MNone.
+Proof. exact ymdhms_invalid. Qed.
+Print Assumptions C04_with_ymd_and_hms_invalid.
